@@ -643,6 +643,37 @@ func (e *Engine) scenario(s *State, cm *CachedModel, ob string) *Scenario {
 				}
 			}
 		}
+		// the model may also order longer strings that start with these addresses (store keys such as
+		// prover/owner/...): such a comparison is decided by the first differing piece
+		idxOf := map[int]int{}
+		for i, a := range addrs {
+			idxOf[a.strT.ID] = i
+		}
+		for _, app := range ufApps(s.pcTerms(), "strlt") {
+			v, ok := cm.Eval(app)
+			if !ok || v.B == nil {
+				continue
+			}
+			pa, pb := parts(app.Args[0]), parts(app.Args[1])
+			k := 0
+			for k < len(pa) && k < len(pb) && pa[k] == pb[k] {
+				k++
+			}
+			if k >= len(pa) || k >= len(pb) {
+				continue
+			}
+			i, ok1 := idxOf[pa[k].ID]
+			j, ok2 := idxOf[pb[k].ID]
+			if !ok1 || !ok2 || i == j {
+				continue
+			}
+			if *v.B {
+				less[i][j] = true
+			} else {
+				less[j][i] = true
+			}
+			any = true
+		}
 		if any && !dupBytes {
 			// topological order of the known relations
 			var ord []int
